@@ -20,6 +20,8 @@ THEOREMS = [
     "c17_roundtrip",
     "c17_cross_backend",
     "c17_big_int_stdlib",
+    "c17_memo_transparent",
+    "c17_memo_sequence",
 ]
 RULE = (
     "values: every JSON value of nesting depth<=2 over 10 leaves (null, booleans, 0, -1, 2^64-1, 1.5, '', 'a', U+2028) with arrays/objects of "
@@ -75,6 +77,19 @@ def _features(t):
     if any(isinstance(x, dict) and "f" in x for x in J.walk(t)):
         f.append("float")
     return f
+
+
+class J_debug:
+    """placeholder context (the workers switch logging themselves per item); kept for symmetry"""
+
+    def __init__(self, *ws):
+        pass
+
+    def __enter__(self):
+        return self
+
+    def __exit__(self, *exc):
+        return False
 
 
 class Codec(Suite):
@@ -162,6 +177,11 @@ class Codec(Suite):
                     texts.append(r["text"])
         lo = wo.call({"op": "loads", "texts": texts, "debug_every": 3})["out"]
         ls = ws.call({"op": "loads", "texts": texts, "debug_every": 3})["out"]
+        if not getattr(self, "_churned", False):
+            # once per run: a long session (more distinct short documents than any cache holds, decoded, edited, decoded again)
+            self._churned = True
+            with J_debug(wo, ws):
+                self.churn = {"o": wo.call({"op": "churn"}), "s": ws.call({"op": "churn"})}
         small = [i for i, c in enumerate(cases) if not J.is_compact(c["v"])]
         ro = wo.call({"op": "reuse", "values": [vals[i] for i in small]})["out"]
         rs = ws.call({"op": "reuse", "values": [vals[i] for i in small]})["out"]
@@ -177,6 +197,9 @@ class Codec(Suite):
             obs[i]["loads"][tag + "s"] = b
         for i, a, b in zip(small, ro, rs):
             obs[i]["reuse"] = {"o": a, "s": b}
+        if getattr(self, "churn", None) and obs:
+            obs[0]["churn"] = self.churn
+            self.churn = None
         self._obs = {id(c): o for c, o in zip(cases, obs)}
         self._tok = getattr(self, "_tok", {})
         self._tok["o"] = {**self._tok.get("o", {}), **do["tokens"]}
@@ -259,6 +282,11 @@ class Codec(Suite):
             if "\n" in d["text"] or "\r" in d["text"]:
                 return ("raw-line-break/" + tag, f"compact encoding contains a raw line break ({name}): {d['text']!r:.200}",
                         {"line_breaks": 0})
+        for tag, r in (o.get("churn") or {}).items():
+            name = "orjson importable" if tag == "o" else "orjson absent"
+            if r.get("bad"):
+                return ("long-session/" + tag, f"in a long session (1500 distinct short documents decoded, edited, decoded again; 1000 encodes of one "
+                        f"object) a later call differs from the first: {r['bad']} ({name})", None)
         for tag, r in (o.get("reuse") or {}).items():
             name = "orjson importable" if tag == "o" else "orjson absent"
             if r.get("dumps_sees_mutation") is False or r.get("dumps_repeatable") is False:
